@@ -403,6 +403,10 @@ class World:
                 self.wire.append((now, "s2c", peer.addr, dest, data, "delay"))
                 # a delayed datagram leaves the FIFO: it may overtake / be overtaken
                 self._fly(when + float(act[1]), self._deliver, peer, data, dest)
+            elif isinstance(act, (list, tuple)) and act[0] == "replace":
+                # the datagram arrives damaged (other content in the same frame)
+                self.wire.append((now, "s2c", peer.addr, dest, act[1], "replace"))
+                self._schedule(("s2c", dest), when, self._deliver, peer, act[1], dest)
             elif act == "swap" and i + 1 < len(seq):
                 self.wire.append((now, "s2c", peer.addr, dest, data, "swap"))
                 nxt = seq[i + 1]
